@@ -279,16 +279,32 @@ def terms_trn_pool(case, out):
 # ----------------------------------------------------------------------------------------
 
 U = 64
+# Round-5 miss C11-j (numeric extremes of times).  A case of kind 'ctmx' / 'ctmx_text' carries its own grid step
+# case["unit"] (a float: 2**-20, 1e-5, 2**30, 1e16 ...): time = k * unit.  The model works on the integers k and is
+# scale free, so the SAME check terms judge these cases.  UNIT[0] is set only while such a case is run / rendered
+# (impl_ctmx, terms_ctmx); everywhere else (and for the source ties, which see kind 'ctm' only) the grid is 1/64 s.
+UNIT = [None]
 
 
 def g2f(k):
-    return k / U
+    return k / U if UNIT[0] is None else k * UNIT[0]
 
 
 def f2g(x):
     """float -> grid integer, or None when off the grid"""
-    v = Fraction(x) * U
+    v = Fraction(x) * U if UNIT[0] is None else Fraction(x) / Fraction(UNIT[0])
     return int(v) if v.denominator == 1 else None
+
+
+def _on_unit(fn):
+    def run_on_unit(a, b):
+        case = a if isinstance(a, dict) and "unit" in a else b      # impl(chk, case) / terms(case, out)
+        UNIT[0] = float(case["unit"])
+        try:
+            return fn(a, b)
+        finally:
+            UNIT[0] = None
+    return run_on_unit
 
 
 def py_ctm_ts(case):
@@ -784,6 +800,13 @@ KINDS = {
     "ctm": (impl_ctm, terms_ctm), "ctm_text": (impl_ctm_text, terms_ctm_text),
     "tg": (impl_tg, terms_tg), "tok": (impl_tok, terms_tok),
 }
+# round-5 (numeric extremes of times): the same implementations and the same model terms under kinds of their own - the
+# source ties select their cases by kind and were developed on the ordinary regimes only
+KINDS.update({"ctmx": (_on_unit(impl_ctm), _on_unit(terms_ctm)), "ctmx_text": (_on_unit(impl_ctm_text), _on_unit(terms_ctm_text)),
+              "tgx": (impl_tg, terms_tg), "tokx": (impl_tok, terms_tok)})
+BASE_KIND = {"ctmx": "ctm", "ctmx_text": "ctm_text", "tgx": "tg", "tokx": "tok"}
+for _k, _b in BASE_KIND.items():
+    THEOREMS[_k] = THEOREMS[_b]
 
 # ----------------------------------------------------------------------------------------
 # generators (all randomness from chk.rng)
@@ -1269,6 +1292,168 @@ def g_tok_case(rng, wild=False):
     return c
 
 
+# ---- numeric extremes of times, every timed format (round-5 miss C11-j) ---------------------------------------------------
+# repr(float) - what write_ctm prints - switches to exponent notation for non-zero values below 1e-4 and for values >= 1e16
+# ('3.0517578125e-05', '1.8014398509481984e+16'); fixed-precision printing (TextGrid) of such values gives all-zero or
+# 17+ digit fields; seconds -> frames multiplies and floor-divides them.  Every generated time is k * unit with
+#   unit a power of two, k < 2^53 / 2^30     - products, sums start + duration and differences end - start are exact, or
+#   unit ANY float (1e-5, 1/48000, 1e16 ...), k in {0, 1, 2} - u + u = 2u and 2u - u = u are exact in binary floating point,
+# so the scale-free integer model stays the judge and the expected times are exact.
+P2 = lambda e: 2.0 ** e                                                                                    # noqa: E731
+EXT_GRID = [    # (unit, start pool, duration pool) - in units
+    (P2(-20), [0, 0, 1, 2, 3, 7, 50, 104, 105, 2 ** 20, 2 ** 20 + 1], [0, 1, 1, 2, 5, 100, 2 ** 19]),      # < 1e-4 up to k = 104
+    (P2(-16), [0, 0, 1, 2, 6, 7, 65536, 65537], [0, 1, 2, 4, 6, 7, 32768]),                               # 2 samples at 65.5 kHz
+    (P2(-30), [0, 1, 2, 1000, 2 ** 30], [0, 1, 3, 2 ** 10]),
+    (P2(-60), [0, 1, 5, 2 ** 20], [0, 1, 9]),
+    (P2(-1074), [0, 1, 2, 3, 2 ** 30], [0, 1, 2, 5]),                                                       # subnormals: '5e-324'
+    (P2(30), [0, 1, 9313225, 9313226, 2 ** 24, 2 ** 24 + 1, 2 ** 25 + 3, 2 ** 26], [0, 1, 7, 2 ** 24, 2 ** 25]),  # 1e16 ~ 9313225.7 units
+    (P2(100), [0, 1, 2, 3, 1000], [0, 1, 5]),
+    (P2(1000), [0, 1, 2, 3], [0, 1, 4]),
+]
+EXT_ANY = [1e-5, 1 / 48000, 1e-7, 3e-5, 0.30000000000000004 - 0.3, 9.999e-5, 2.2250738585072014e-308, 1e16, 1e22,
+           123456789012345680.0, 1e100, 1.7976931348623157e308]
+
+
+def _ext_times(rng):
+    """-> (unit, draw) with draw() -> (start, end) in units"""
+    if rng.random() < 0.6:
+        unit, sp, dp = rng.choice(EXT_GRID)
+
+        def draw():
+            s = rng.choice(sp) if rng.random() < 0.8 else rng.randint(0, max(sp))
+            return s, s + (rng.choice(dp) if rng.random() < 0.8 else rng.randint(0, max(dp)))
+        return unit, draw
+    unit = rng.choice(EXT_ANY)
+    top = 1 if unit > 1e308 else 2
+
+    def draw():
+        s = rng.randint(0, top)
+        return s, rng.randint(s, top)
+    return unit, draw
+
+
+def g_ctm_extreme(rng):
+    c = g_ctm(rng, shared=rng.random() < 0.3)
+    while not c["ts"]:
+        c = g_ctm(rng)
+    unit, draw = _ext_times(rng)
+    for _, tr in c["ts"]:
+        for j, t in enumerate(tr):
+            t[1], t[2] = draw()
+            if j and rng.random() < 0.25:       # ties in start (the reader's sort by start is stable)
+                t[1], t[2] = tr[j - 1][1], max(tr[j - 1][1], t[2])
+    c.update(kind="ctmx", unit=unit)
+    c["roundtrip"] = ctm_valid(c)
+    return c
+
+
+def g_ctm_text_extreme(rng):
+    """a foreign ctm file (comments, 6th column, blank lines, unsorted) whose numbers are printed by repr"""
+    c = g_ctm_text(rng)
+    while not c["segs"]:
+        c = g_ctm_text(rng)
+    unit, draw = _ext_times(rng)
+    for sg in c["segs"]:
+        s, e = draw()
+        sg[2], sg[3] = s, e - s
+    c.update(kind="ctmx_text", unit=unit)
+    return c
+
+
+TG_TINY = [0.0, 5e-324, 1e-7, P2(-20), 1e-5, 1 / 48000, 3e-5, P2(-14), 9.999e-5, 2.5e-4, 1e-3, 0.0015, 0.25]
+TG_HUGE = [(1e16, 2.0), (P2(60), 256.0), (1e22, 2097152.0), (P2(100), P2(48)), (9007199254740992.0, 2.0), (1e15, 0.125)]
+
+
+def g_tg_extreme(rng):
+    """TextGrid tiers whose times are tiny (below / around one unit of every print precision, down to subnormals) or huge
+    (>= 1e16: 17+ digit fields, neighbouring floats 2 ... 2^48 apart); exact rationals of the floats on the model side"""
+    tr = []
+    if rng.random() < 0.55:
+        k = rng.choice([1, 2, 2, 3, 4])
+        pts = sorted(rng.sample(TG_TINY, min(len(TG_TINY), 2 * k)))
+        point = rng.random() < 0.25
+        for j in range(k):
+            s, e = pts[2 * j], pts[2 * j + 1]
+            r = rng.random()
+            tr.append(["t%d" % j, s, s if (point or r < 0.15) else e])
+            if r > 0.6 and j + 1 < k:
+                pts[2 * j + 2] = e                      # the next interval starts where this one ends
+        p = rng.choice([0, 3, 3, 4, 5, 5, 6, 7, 9, 12, 12])
+    else:
+        base, ulp = rng.choice(TG_HUGE)
+        t = base + ulp * rng.choice([0, 1, 3])
+        point = rng.random() < 0.25
+        for j in range(rng.choice([1, 2, 3])):
+            if rng.random() < 0.5:
+                t += ulp * rng.choice([1, 2, 1024])
+            d = 0.0 if (point or rng.random() < 0.15) else ulp * rng.choice([1, 1, 3, 512])
+            tr.append(["h%d" % j, t, t + d])
+            t += d
+        p = rng.choice([0, 1, 2, 3, 3, 4, 6])
+    if rng.random() < 0.15:
+        rng.shuffle(tr)
+    c = {"kind": "tgx", "tr": tr, "precision": p, "point_tier": rng.choice([None, None, None, True, False]), "tier_id": 0,
+         "fill": rng.choice([None, None, "sil"])}
+    if rng.random() < 0.3:
+        c["start_time"] = 0.0
+    if rng.random() < 0.2:
+        hi = max(x[2] for x in tr)
+        c["end_time"] = rng.choice([hi, hi * 2 + 1.0])
+    if rng.random() < 0.25:
+        c["tier_name"] = "words"
+        c["tier_id"] = rng.choice([0, "words", -1])
+    return g_style(rng, c, 0.2)
+
+
+def g_tok_extreme(rng):
+    """seconds <-> frames with tiny and huge times.  Dyadic seconds k * 2^-20 / k * 2^30 and dyadic (or 10 / 12.5 / 20 /
+    1000 ms) frame shifts keep 1000*s, the half-frame offset and the floor division exact (regime E); the few non-dyadic
+    tiny times (1e-5, 1/48000 ...) sit in the first half of frame 0 for every shift used with them, far from a boundary.
+    Frame indices stay below 2^63; ids beyond 2^24 / 2^53 ride along (a float32 / float64 pass would round them)."""
+    huge = rng.random() < 0.4
+    tr = []
+    n = rng.choice([1, 2, 3, 5])
+    vocab = rng.random() < 0.5
+    t2i = [["a", 2 ** 24 + 1], ["b", 3], ["c", 2 ** 53 + 1], ["d", 0]] if vocab else None
+    pool = ["a", "b", "c", "d"] if vocab else [0, 5, 2 ** 24 + 1, 2 ** 31 + 7, 2 ** 53 + 1]
+    if huge:
+        fs = rng.choice([10, 10.0, 12.5, 20, 1000])
+        for _ in range(n):
+            k = rng.choice([9313226, 2 ** 24, 2 ** 24 + 1, 2 ** 25 + 3, 5 * 10 ** 7, rng.randint(2 ** 24, 5 * 10 ** 7)])
+            d = rng.choice([0, 1, 3, 2 ** 10, 2 ** 20])
+            tr.append([rng.choice(pool), k * P2(30), (k + d) * P2(30)])
+    else:
+        fs = rng.choice([10, 10.0, 12.5, 0.125, 1, 0.015625])
+        any_ok = fs in (10, 10.0, 1, 0.125)
+        for _ in range(n):
+            if any_ok and rng.random() < 0.3:
+                a, b = sorted(rng.sample([0.0, 1e-7, 1e-5, 1 / 48000, 3e-5], 2))
+                tr.append([rng.choice(pool), a, rng.choice([a, b])])
+            else:
+                k = rng.choice([0, 1, 2, 3, 50, 105, 1000, 2 ** 20, 2 ** 20 + 1])
+                d = rng.choice([0, 1, 2, 100, 2 ** 14])
+                tr.append([rng.choice(pool), k * P2(-20), (k + d) * P2(-20)])
+    if rng.random() < 0.2:
+        tr.insert(rng.randint(0, len(tr)), rng.choice(pool))        # an untimed token among the timed ones
+    c = {"kind": "tokx", "tr": tr, "token2id": t2i, "unk": None, "fs": fs, "skip": False,
+         "id2token": [[i, k] for k, i in t2i] if t2i else None, "roundtrip": True}
+    if rng.random() < 0.3:
+        c["layout"] = rng.choice(["transposed", "offset", "step"])
+    return g_style(rng, c, 0.2)
+
+
+def _exp_notation(case):
+    """does a time of the case print with an exponent under repr (what write_ctm uses)?"""
+    k = case["kind"]
+    if k == "ctmx":
+        vs = [v * float(case["unit"]) for _, tr in case["ts"] for t in tr if len(t) == 3 for v in (t[1], t[2] - t[1])]
+    elif k == "ctmx_text":
+        vs = [v * float(case["unit"]) for sg in case["segs"] for v in (sg[2], sg[3])]
+    else:
+        vs = [float(v) for x in case["tr"] if isinstance(x, list) for v in x[1:3]]
+    return any("e" in repr(v) for v in vs)
+
+
 def exhaustive_trn(max_depth):
     """every alternates shape over a tiny alphabet: elements 'a', '/' (top level only), and
     alternates with 1-2 branches of 0-2 elements, nested to max_depth; 1-2 elements per utterance"""
@@ -1341,6 +1526,12 @@ def gen_cases(chk):
         c = g_trn_chars_pool(rng)
         c["stream"] = "chars-pool"
         cases.append(c)
+    # round-5 miss C11-j: numeric extremes of times in every timed format (drawn last: the older streams keep their cases)
+    for g, n in [(g_ctm_extreme, 70), (g_ctm_text_extreme, 30), (g_tg_extreme, 60), (g_tok_extreme, 60)]:
+        for _ in range(n * mult):
+            c = g(rng)
+            c["stream"] = "extreme-times"
+            cases.append(c)
     only = os.environ.get("C11_KINDS")      # developer switch: restrict a run to some kinds
     if only:
         cases = [c for c in cases if c["kind"] in only.split(",")]
@@ -1348,7 +1539,7 @@ def gen_cases(chk):
 
 
 def nontrivial(case):
-    k = case["kind"]
+    k = BASE_KIND.get(case["kind"], case["kind"])
     if k == "trn":
         return has_alt(case["ts"]) or len(case["ts"]) >= 2
     if k == "trn_text":
@@ -1424,7 +1615,7 @@ def k5_signature(entry, rec):
 
 
 def _shrink_cands(case):
-    k = case["kind"]
+    k = BASE_KIND.get(case["kind"], case["kind"])
     key = {"trn": "ts", "trn_pool": "ts", "ctm": "ts", "ctm_text": "segs", "tg": "tr", "tok": "tr"}.get(k)
     if key and key in case:
         for i in range(len(case[key])):
@@ -1461,7 +1652,8 @@ def run(chk, cases=None):
     chk.rule = (
         "case = one call sequence on a public entry point (write then read back through path and open file; read of foreign "
         "text; worker pools; tensor conversion), compared with PV.C11.Model by vm_compute: written bytes exactly, read results "
-        "exactly (ctm times on a 1/64 s grid; TextGrid times as the exact rationals of the floats, read back as p-digit decimals; "
+        "exactly (ctm times on a 1/64 s grid - stream extreme-times: on a per-case grid k * unit, unit from 2^-1074 to 2^1000 or any "
+        "float with k <= 2, where float sums and differences are exact; TextGrid times as the exact rationals of the floats, read back as p-digit decimals; "
         "frames exactly). non-trivial = trn: an alternate or >=2 utterances; trn_text: contains a delimiter; ctm: >=2 utterances "
         "or >=2 tokens; tg: >=2 entries or a non-default option; tok: a timed item; pools always")
     chk.assumptions += [
@@ -1537,6 +1729,11 @@ def run(chk, cases=None):
             chk.count("tok fs=%s" % c.get("fs"))
         if c["kind"] == "trn_pool":
             chk.count("pool processes=%d chunk=%d entry=%s" % (c["proc"], c["chunk"], c["entry"]))
+        if c["kind"] in BASE_KIND:
+            chk.count("extreme-times %s: %s" % (c["kind"], "a time that repr prints with an exponent" if _exp_notation(c)
+                                                else "plain decimals only"))
+            if c["kind"] == "ctmx":
+                chk.count("extreme-times ctmx read back=" + ((out.get("r_file") or (None, "not written"))[1] or "ok"))
         if streams[idx].startswith("chars"):
             txt = "".join(_case_strings(c.get("ts", c.get("tr", []))))
             chk.count("chars %s: %s" % (c["kind"], "white space other than ' '" if any(ch in txt for ch in WS_OTHER)
@@ -1619,6 +1816,8 @@ def run(chk, cases=None):
                    no_failing_input=(out["w_path"] == out["w_file"] and out["w_path_exc"] == out["w_exc"]))
     from props.c11_tie import source_tie  # source tie: the translated read_ctm / write_ctm / token conversions, run inside Coq
     source_tie(chk, cases, [r[3] for r in results])
+    from props.c11_tie import source_tieB  # second tie: write_trn, write_textgrid, the path branches (unit C11BSrc)
+    source_tieB(chk, cases, [r[3] for r in results])
     if replaying:
         for c, (labels, vals, meta, out) in zip(cases, results):
             print("replay:", json.dumps(c, default=str)[:300])
